@@ -198,6 +198,49 @@ def cv_key(fn, a):
     return None
 
 
+def polarities(fn, c, sign=1, depth=0):
+    """[(record.field, polarity)] for the fields a boolean condition depends on monotonically: +1 when a larger / non-zero /
+    non-empty value makes the condition true.  Handles !, &&, ||, comparisons with constants, nni_list_empty and plain
+    truthiness, so `a > 1 || !empty(L)` and `!(a <= 1 && empty(L))` give the same answer."""
+    out = []
+    if c is None or depth > 10:
+        return out
+    k = c.get("k")
+    if k == "un" and c.get("op") == "!":
+        return polarities(fn, c["e"], -sign, depth + 1)
+    if k == "bin" and c["op"] in ("&&", "||"):
+        return polarities(fn, c["lhs"], sign, depth + 1) + polarities(fn, c["rhs"], sign, depth + 1)
+    if k == "asg" and c.get("op") == "=":
+        return polarities(fn, c["rhs"], sign, depth + 1)
+    if k == "bin" and c["op"] in (">", ">=", "!=", "<", "<=", "=="):
+        l, r_ = c["lhs"], c["rhs"]
+        op = c["op"]
+        if const_of(l) is not None and const_of(r_) is None:
+            l, r_ = r_, l
+            op = {">": "<", "<": ">", ">=": "<=", "<=": ">="}.get(op, op)
+        if const_of(r_) is None:
+            return out
+        t = {">": 1, ">=": 1, "!=": 1, "<": -1, "<=": -1, "==": -1}[op]
+        if op in ("!=", "==") and const_of(r_) != 0:
+            return out
+        return polarities_leaf(fn, l, sign * t)
+    return polarities_leaf(fn, c, sign)
+
+
+def polarities_leaf(fn, n, sign):
+    if n is None:
+        return []
+    while n.get("k") == "cast":
+        n = n["e"]
+    if n.get("k") == "mem" and n.get("t") not in ("nni_list", "nni_cv", "nni_mtx"):
+        lf = last_field(n)
+        return [(lf, sign)] if lf else []
+    if n.get("k") == "call" and n.get("fn") == "nni_list_empty" and n["args"]:
+        lf = last_field(fn.expand(n["args"][0]))
+        return [(lf, -sign)] if lf else []
+    return []
+
+
 def wait_conditions(prog):
     """[(fn, wait site, cv key, {field: polarity})]: polarity +1 means the waiter keeps
     waiting while the field is non-zero / non-empty / large, -1 while it is zero."""
@@ -233,19 +276,7 @@ def wait_conditions(prog):
                     if c is None:
                         continue
                     k = pb.succs.index(cur)          # edge towards the wait
-                    for n in walk(c):
-                        lf = None
-                        t = 0
-                        if n.get("k") == "mem" and n.get("t") not in ("nni_list", "nni_cv", "nni_mtx"):
-                            lf = last_field(n)
-                            t = truth_of(c, lambda x, n=n: x is n)
-                            if t == 0 and c.get("k") == "bin" and n is c["lhs"]:
-                                t = {">": 1, ">=": 1, "!=": 1, "<": -1, "<=": -1, "==": -1}.get(c["op"], 0)
-                        elif n.get("k") == "call" and n.get("fn") == "nni_list_empty" and n["args"]:
-                            lf = last_field(fn.expand(n["args"][0]))
-                            t = -truth_of(c, lambda x, n=n: x is n)
-                        if lf is None or t == 0:
-                            continue
+                    for lf, t in polarities(fn, c):
                         fields[lf] = t if k == 0 else -t
                     nonref = [e for e in pb.elems if e is not None and e.get("k") != "ref"]
                     if kind in ("&&", "||") or len(nonref) <= 1:
